@@ -654,7 +654,21 @@ def check_identity(sr: SchemaRun, d: dict, inst, back):
         for x, y in _pairs(a, b):
             if type(x) is c and type(y) is not c:
                 sr.finding("wrong-class-bound", f"field {holder.__name__}.{fn}: annotation {c!r} (id {id(c):#x}) but decoded object is of {type(y)!r} (id {id(type(y)):#x})",
-                           entry=f"{holder.__name__}.from_dict", field=fn, ann=c, got=type(y))
+                           entry=f"{holder.__name__}.from_dict", field=fn, ann=c, got=type(y),
+                           winner=_winner(d, holder, fn, type(y)))
+
+
+def _winner(d, holder, fn, got) -> str:
+    """is the class that was wrongly used the annotation of an earlier or of a later field?"""
+    import dataclasses
+    order = [f.name for f in dataclasses.fields(holder)]
+    mine = order.index(fn) if fn in order else -1
+    others = [order.index(f2) for h2, f2, c2 in d.get("IDENT", []) if h2 is holder and c2 is got and f2 in order]
+    if others and all(o < mine for o in others):
+        return "earlier-field"
+    if others and all(o > mine for o in others):
+        return "later-field"
+    return "unknown"
 
 
 def _pairs(a, b):
@@ -684,7 +698,7 @@ def _all_schema_classes(d: dict) -> list:
     return out
 
 
-def classify(f: dict, d: dict, module: str) -> dict:
+def classify(f: dict, d: dict, module: str, src: str = "") -> dict:
     """-> signature dict {"kind", "cause", ...}; cause 'other' when no narrow predicate applies"""
     kind = f["kind"]
     name = f.get("name") or ""
@@ -697,7 +711,13 @@ def classify(f: dict, d: dict, module: str) -> dict:
                 cause = "same-qualname"
             elif clean(rendered_name(a)) == clean(rendered_name(b)):
                 cause = "clean-id-collision"
-        return {"kind": "wrong-class-bound", "cause": cause}
+        winner = f.get("winner", "unknown")
+        if a is not None and b is not None and "<locals>" not in getattr(a, "__qualname__", ""):
+            # module-level names are resolved through the module attribute when the code runs
+            if reachable_by_name(b):
+                winner = "module-attribute"
+            # else: dataclasses are addressed through an alias bound with setdefault -> winner as observed
+        return {"kind": "wrong-class-bound", "cause": cause, "winner": winner}
     if kind in ("static-unresolved-attr", "own-AttributeError") and name == "types.Dialect" and "default_dialect=types.Dialect" in (f.get("program") or f.get("what") or ""):
         return {"kind": "unresolved-attr", "cause": "merged-dialect-not-importable"}
     if kind in ("static-unresolved-attr", "own-AttributeError") and name.split(".")[0] == module.split(".")[0] and module.split(".")[0] in SHADOWABLE:
@@ -712,6 +732,11 @@ def classify(f: dict, d: dict, module: str) -> dict:
             if (rn == name or rn.startswith(name + ".") or name.startswith(rn + ".") or name == f"{c.__module__.split('.')[-1]}.{c.__qualname__.split('.')[0]}") and not reachable_by_name(c):
                 cause = "class-not-at-qualname"
                 break
+        if cause == "other" and src and name.startswith(module + "."):
+            import re
+            x = re.escape(name[len(module) + 1:].split(".")[0])
+            if re.search(r"^[ \t]+" + x + r" = (NewType|TypedDict|NamedTuple|enum\.\w+|collections\.namedtuple|make_dataclass)\(['\"]" + x + r"['\"]", src, re.M):
+                cause = "class-not-at-qualname"     # functional-API object created inside a function: qualname without '<locals>'
         if cause == "other" and kind == "own-AttributeError":
             root = module.split(".")[0]
             attr = name.split(".")[-1]
